@@ -34,7 +34,12 @@ def gen_rank(rnd: random.Random, rank: int, p: Dict[str, Any]) -> Dict[str, Any]
     spans = []
     for k in range(p["n_act"]):
         r = rnd.random()
-        if spans and r < 0.15:
+        if p.get("skew") and k == 0:
+            a, b = 0, T                                       # one activity as long as the whole window ...
+        elif p.get("skew"):
+            a = rnd.randint(0, T - 3)
+            b = a + rnd.randint(0, 3)                         # ... next to activities more than 10000 times shorter
+        elif spans and r < 0.15:
             a, b = rnd.choice(spans)                         # identical span
         elif spans and r < 0.3:
             a0, b0 = rnd.choice(spans)
@@ -84,10 +89,16 @@ def gen_rank(rnd: random.Random, rank: int, p: Dict[str, Any]) -> Dict[str, Any]
 def gen_case(rnd: random.Random, tier: str, need_comm: bool = False, annotations: bool = False) -> Dict[str, Any]:
     n_ranks = rnd.choice([1, 1, 2, 3, 4])
     T = rnd.choice([6, 12, 40, 1000])
+    skew = rnd.random() < 0.08
+    if skew:
+        T = rnd.choice([60_000, 250_000])      # shares far below the rounding step of the percentage columns
     base = rnd.choice([0, 1000, 10 ** 6, 1_700_000_000_000_000])     # ranks share one clock (aligned times stay small)
+    many = rnd.random() < 0.04
+    if many:
+        n_ranks = rnd.choice([9, 10, 12])      # more than 8 ranks: the loader sizes its pool differently; one rank much larger
     files = {}
     # the ranks of a job need not be 0..n-1 (a subset of a larger job's files; a single file of rank 6)
-    labels = list(range(n_ranks)) if rnd.random() < 0.6 else sorted(rnd.sample([0, 1, 2, 3, 5, 6, 8, 13, 64], n_ranks))
+    labels = list(range(n_ranks)) if rnd.random() < 0.6 or many else sorted(rnd.sample([0, 1, 2, 3, 5, 6, 8, 13, 64], n_ranks))
     p_no_corr = rnd.choice([0.0, 0.0, 0.15, 0.4])
     same_vocab = n_ranks > 1 and rnd.random() < 0.35
     for r in labels:
@@ -96,9 +107,11 @@ def gen_case(rnd: random.Random, tier: str, need_comm: bool = False, annotations
             w = [3, 3, 1, 1]
         p = {"T": T, "base": base + rnd.choice([0, 0, 3, 500]), "n_act": rnd.randint(1, rnd.choice([4, 14, 40])),
              "n_streams": rnd.choice([1, 2, 3, 4]), "p_zero": rnd.choice([0.0, 0.15, 0.3]), "type_weights": w,
-             "many_names": rnd.random() < 0.5, "shuffle": rnd.random() < 0.5, "force_comm": need_comm, "p_no_corr": p_no_corr, "same_vocab": same_vocab,
+             "many_names": rnd.random() < 0.5, "shuffle": rnd.random() < 0.5, "force_comm": need_comm, "p_no_corr": p_no_corr, "same_vocab": same_vocab, "skew": skew,
              "n_ann": rnd.choice([0, 0, 3, 12]) if annotations else 0,
              "ann_names": rnd.sample(["fwd", "bwd", "opt", "nccl:all_reduce", "fwd_block_1", "fwd_block_2", "loss", "data", "others"], rnd.randint(1, 9))}
+        if many and r == labels[0] and not skew:
+            p["n_act"] = 1500                  # the first file takes far longer to parse than the others
         files[f"rank{r}.json"] = gen_rank(rnd, r, p)
     if same_vocab:
         # later ranks: the first rank's events under the same names, other durations and another order in the file, so that they
